@@ -16,6 +16,9 @@ struct Shutdown {
     steps: u64,
     late_connects_left: u32,
     late_clients: Vec<usize>,
+    /// one of the handlers running at revocation never returns
+    stick_a_handler: bool,
+    stuck_job: Option<u64>,
 }
 impl Extras for Shutdown {
     fn enabled(&mut self, eng: &Engine) -> Vec<u32> {
@@ -30,7 +33,18 @@ impl Extras for Shutdown {
     }
     fn step(&mut self, eng: &mut Engine, id: u32) {
         match id {
-            0 => eng.revoke(),
+            0 => {
+                if self.stick_a_handler {
+                    let running = sim_core::running_jobs();
+                    if !running.is_empty() {
+                        let j = running[gen::below(running.len() as u32) as usize];
+                        eng.stuck_jobs.insert(j);
+                        self.stuck_job = Some(j);
+                        gen::count("fault.handler_never_returns");
+                    }
+                }
+                eng.revoke()
+            }
             _ => {
                 self.late_connects_left -= 1;
                 let mut c = Client::new(vec![Op::Connect, Op::Send(b"GET /late HTTP/1.1\r\n\r\n".to_vec()), Op::AwaitFinal(1)], Frag::Whole);
@@ -189,6 +203,8 @@ fn scenario(cfg: &RunCfg, saturate: bool) -> Outcome {
         steps: 0,
         late_connects_left: gen::below(3),
         late_clients: Vec::new(),
+        stick_a_handler: gen::ratio(1, 5),
+        stuck_job: None,
     };
     if let Some(v) = eng.run(&mut ex) {
         return Outcome { violation: Some(v), nontrivial: true, ..Default::default() };
@@ -246,6 +262,11 @@ fn scenario(cfg: &RunCfg, saturate: bool) -> Outcome {
         };
         let exp = model_conn(reqs, &scfg);
         let mine: Vec<_> = calls.iter().filter(|c| c.conn == conn).collect();
+        // the connection whose handler never returns gets no answer, whatever the server
+        // does; the stopped signal (checked above) must not wait for it
+        if ex.stuck_job.is_some() && mine.iter().any(|c| c.job == ex.stuck_job) {
+            continue;
+        }
         // calls are a prefix of the model's calls
         for (i, c) in mine.iter().enumerate() {
             match exp.calls.get(i) {
@@ -437,13 +458,13 @@ pub fn spec() -> PropertySpec {
     PropertySpec {
         id: "C13",
         level: "exploration",
-        rule: "Each run: the real server with a revocable permit and max_conns 1-3; 0..max_conns+1 simulated clients in mixed phases (never connected, idle keep-alive, head or body partially sent, handler running, response being read slowly) that never close by themselves; the revocation is one more scheduler action whose earliest step is drawn from the tape, so it lands at every await point of the accept loop and connection tasks; connects after the stopped signal; in a quarter of the runs one more client that connects and resets at once (reset while waiting in the backlog when the slots are taken); in a quarter of the runs 1-3 transient accept failures (EMFILE, ECONNABORTED, ENFILE, ENOBUFS, ENOMEM, EPROTO, ENETDOWN, EHOSTUNREACH, ...) armed from the start - the loop must back off and carry on, never stop by itself; a stage in which every accept fails with EMFILE from some step on (the loop backs off 500 ms of virtual time per attempt) and the revocation must still stop the server within 10 virtual seconds. A request counts as in flight from the first call of its handler (for an upload: the call that asks for the body) and must then receive its complete response. Verdicts by quiescence (nothing runnable, nothing in flight, no timer), never by timeout. Non-trivial = at least one client; distinct = distinct schedule hash.",
+        rule: "Each run: the real server with a revocable permit and max_conns 1-3; 0..max_conns+1 simulated clients in mixed phases (never connected, idle keep-alive, head or body partially sent, handler running, response being read slowly) that never close by themselves; the revocation is one more scheduler action whose earliest step is drawn from the tape, so it lands at every await point of the accept loop and connection tasks; connects after the stopped signal; in a quarter of the runs one more client that connects and resets at once (reset while waiting in the backlog when the slots are taken); in a quarter of the runs 1-3 transient accept failures (EMFILE, ECONNABORTED, ENFILE, ENOBUFS, ENOMEM, EPROTO, ENETDOWN, EHOSTUNREACH, ...) armed from the start - the loop must back off and carry on, never stop by itself; a stage in which every accept fails with EMFILE from some step on (the loop backs off 500 ms of virtual time per attempt) and the revocation must still stop the server within 10 virtual seconds. In a fifth of the runs one of the handlers that are running at the moment of revocation never returns: the listener must still be released and the stopped signal delivered. A request counts as in flight from the first call of its handler (for an upload: the call that asks for the body) and must then receive its complete response. Verdicts by quiescence (nothing runnable, nothing in flight, no timer), never by timeout. Non-trivial = at least one client; distinct = distinct schedule hash.",
         scenarios: vec![
             Scenario { name: "c13.mixed", property: "C13", func: mixed, runs_quick: 400_000, runs_thorough: 10_000_000, doc: "mixed phases" },
             Scenario { name: "c13.accept_failing", property: "C13", func: accept_failing, runs_quick: 60_000, runs_thorough: 1_500_000, doc: "revocation while every accept fails with EMFILE (virtual 500 ms back-off)" },
             Scenario { name: "c13.saturated", property: "C13", func: saturated, runs_quick: 200_000, runs_thorough: 5_000_000, doc: "at least max_conns clients that stay connected: every slot is held when the permit is revoked" },
         ],
-        required_probes: vec!["probe.revoked", "probe.all_slots_held_at_quiescence", "probe.connect_after_stopped", "probe.request_served_after_revocation", "probe.revoked_during_accept_failures", "timer.sleep_for", "fault.accept_other_errno", "fault.client_reset_in_backlog_or_early"],
+        required_probes: vec!["probe.revoked", "probe.all_slots_held_at_quiescence", "probe.connect_after_stopped", "probe.request_served_after_revocation", "probe.revoked_during_accept_failures", "timer.sleep_for", "fault.accept_other_errno", "fault.client_reset_in_backlog_or_early", "fault.handler_never_returns"],
         components: components_server(),
         assumptions: vec![
             "bounded time is judged as 'before quiescence', i.e. without any further external event",
